@@ -293,7 +293,11 @@ def _v1_self(ctx, fi, ex, me="self"):
             continue
         ok = any(k2 == k for k2, _ in DI)
         ctx.check(ok, "V1", "%s: del _data[%s] comes with del _node_indices of the same node" % (lab, show_key(k)[:50]), fi.where(e.node), "a node's data list is deleted while the node stays registered", construct=fi.qualname, stmt="data deletion has map deletion")
-    if (DI or DR) and not removing and not resets:
+    private_helper = fi.name.startswith("_") and not fi.name.startswith("__") and fi.cls is not None and any(
+        m is not fi and any(isinstance(c.func, ast.Attribute) and c.func.attr == fi.name and u(c.func.value) == "self" for c in calls(m.node)) for m in fi.cls.methods.values())
+    if (DI or DR) and not removing and not resets and not private_helper:
+        # (a private helper that only drops the entries is judged where it is called: the callers are analysed with
+        # the helper inlined, so the pairing with the graph removal is checked there)
         e = (DI or DR)[0][1]
         ctx.fail("V1", "%s: map entries deleted without removing the node from the graph" % lab, fi.where(e.node), "index entries are deleted but no graph node is removed", construct=fi.qualname, stmt="deletion without removal")
     # (e) data list <=> payload
